@@ -24,3 +24,8 @@ func VerifAddAddress(km *KeystoreManager, walletId, addr string) {
 func VerifAddAddressWithHash(km *KeystoreManager, walletId, addr string, scriptHash []byte) {
 	km.managedKeystores[walletId].addrs[addr] = &ManagedAddress{address: addr, keystoreName: walletId, scriptHash: scriptHash}
 }
+
+// VerifAddWallet registers an (address-less) address manager named walletId with a keystore manager.
+func VerifAddWallet(km *KeystoreManager, walletId string) {
+	km.managedKeystores[walletId] = &AddrManager{keystoreName: walletId, index: map[uint32]string{}, addrs: map[string]*ManagedAddress{}, acctInfo: &accountInfo{}, branchInfo: &branchInfo{}}
+}
